@@ -4,8 +4,8 @@ from common import *
 CLAIMED = True
 LEVEL = 'proof'
 LEVEL_TEXT = ('Proof, assembled from parts (coq/Properties/C07_*.v): contains / points / bounding boxes / draw / pixels() commute with translation for Rectangle (C07_geometry_*), styled Rectangle/Circle/Ellipse (C07_circle_*), RoundedRectangle (C07_rrect_*), Sector/Arc (C07_sector_*, C07_arc_*), images (C07_image_*, translate_mut = translate), text incl. the returned next position (C07_text_*), triangles and thin polylines incl. translate field vs moved vertices (C07_tri_*), and the thick-stroke pipeline: LinearEquation, IntersectionParams (round_div as written incl. the saturating cast; C07_join_round_div_shift is the arithmetic core of repair a4a7ab8), Line::extents (ParallelsIterator), LineJoin, ThickSegment, Scanline and their composition up to pixels(), the fill_solid rectangles of draw() and the styled bounding box of thick polylines and stroked triangles with all three alignments (C07_join_*).')
-LEVEL_NOTE = ("The thick-pipeline composition theorems assume that no USED join intersection reaches round_div's saturating cast and that segment corners lie within +-2^29 (computable predicates poly_hyps / tri_hyps, evaluated by the model oracle on every generated case); they are input-only - no hypothesis on internal values - for vertices within +-V with V + 6*width + 8 <= 322 (C07_join_*_translate_range; e.g. 240x240 with stroke <= 12), and for single line pairs within +-511. Thick single lines: translation of the thick model is a theorem of the C17 part. Other i32/i64 arithmetic is modelled unbounded (valid to about +-2^13 for thick strokes, 2^27..2^29 elsewhere). Models tied to the code by hook-level and pixel-exact differential testing plus the search p_translate (every family, offsets across the axes).")
-PARTIAL = ['thick polylines / stroked triangles beyond V + 6*width + 8 <= 322: the composition theorems carry computable hypotheses on internal values (no saturation of used join intersections, corners within 2^29) instead of a pure coordinate bound (a proof up to +-2^13 is open)',
+LEVEL_NOTE = ("The thick-pipeline composition theorems assume that no USED join intersection reaches round_div's saturating cast and that segment corners lie within +-2^29 (computable predicates poly_hyps / tri_hyps, evaluated by the model oracle on every generated case); they are input-only - no hypothesis on internal values - for vertices within +-V with V + 6*width + 8 <= 8191 (C07_join_*_translate_range; covers 320x240 panels and +-1024 with strokes up to ~1100), and for single line pairs within +-511. Thick single lines: translation of the thick model is a theorem of the C17 part. Other i32/i64 arithmetic is modelled unbounded (valid to about +-2^13 for thick strokes, 2^27..2^29 elsewhere). Models tied to the code by hook-level and pixel-exact differential testing plus the search p_translate (every family, offsets across the axes).")
+PARTIAL = ['thick polylines / stroked triangles beyond V + 6*width + 8 <= 8191: the composition theorems carry computable hypotheses on internal values (no saturation of used join intersections, corners within 2^29) instead of a pure coordinate bound (beyond about +-2^13 the i32 arithmetic of the code is the limit anyway)',
            'translate_mut = translate: theorem for images, rectangles and the models that define both; for the other families checked by the search p_translate (incl. Styled::translate / translate_mut themselves)']
 RULE = ('search p_translate: every drawable family of the zoo (styled rectangle/circle/ellipse/rounded rectangle/triangle/line/polyline/arc/sector '
         'with random fill/stroke/width/alignment, images, sub-images, text with 8 fonts x alignments x baselines x line heights x decorations) '
